@@ -33,7 +33,10 @@ sys.path.insert(0, HERE)
 import weave as weave_mod  # noqa: E402
 
 REPO = os.environ.get('VERIF_REPO', '/repo')
-BUILD = os.path.join(VERIF, '.build')
+BUILD = os.environ.get('VERIF_BUILD') or os.path.join(VERIF, '.build')
+# scratch mode (used when evaluating seeded changes on a scratch worktree): evidence and replay
+# files go under the scratch build dir, never into /verif/evidence
+OUT_ROOT = BUILD if os.environ.get('VERIF_BUILD') else VERIF
 WOVEN = os.path.join(BUILD, 'woven')
 KANI_TARGET = os.path.join(BUILD, 'kani-target')
 CONTRACTS = os.path.join(VERIF, 'contracts')
@@ -390,7 +393,7 @@ def main():
 
     # 5. replay refuted obligations, compare with known findings
     exit_code = 0
-    replay_dir = os.path.join(VERIF, 'replay', prop)
+    replay_dir = os.path.join(OUT_ROOT, 'replay', prop)
     new_violations = 0
     for h, descs in violations:
         os.makedirs(replay_dir, exist_ok=True)
@@ -566,8 +569,8 @@ def write_evidence(prop, tier, seed, obligations, hs, verus_results, units, new_
     ]
     ev = {'property_id': prop, 'tier': tier, 'seed': seed, 'level': level, 'coverage': cov,
           'assumptions': assumptions, 'wall_s': round(wall, 1), 'violations': new_violations}
-    os.makedirs(os.path.join(VERIF, 'evidence'), exist_ok=True)
-    with open(os.path.join(VERIF, 'evidence', prop + '.json'), 'w') as f:
+    os.makedirs(os.path.join(OUT_ROOT, 'evidence'), exist_ok=True)
+    with open(os.path.join(OUT_ROOT, 'evidence', prop + '.json'), 'w') as f:
         json.dump(ev, f, indent=1)
 
 
